@@ -5,6 +5,7 @@ import TantivyModel.Proofs.GrammarCharsSfx
 import TantivyModel.Proofs.GrammarCharsRange
 import TantivyModel.Proofs.GrammarCharsSet
 import TantivyModel.Proofs.GrammarCharsEsc
+import TantivyModel.Proofs.GrammarCharsMisc
 namespace TantivyModel.Grammar.Chars
 open TantivyModel.Grammar
 
@@ -116,7 +117,7 @@ theorem goodOpd_not (g : Bool) (k : Nat) (o : Opd) (ho : GoodOpd g o) : GoodOpd 
     simp only [notOpd, List.length_cons, List.length_append]
     omega
 
-/-- the well-formed fragment: plain words, double-quoted phrases without escapes (optionally with a slop `~n` or the prefix star), double-quoted phrases of any characters at all printed with `\"` and `\\` escapes, either of them with a field prefix `name:`, bracketed ranges `[a TO b]`/`{a TO b}` (also mixed, also with a field prefix), sets `IN [a b c]` of plain words (any blanks, also with a field prefix), `NOT x` of a well-formed operand, and parenthesised lists of well-formed operands with
+/-- the well-formed fragment: plain words, double-quoted phrases without escapes (optionally with a slop `~n` or the prefix star), double-quoted phrases of any characters at all printed with `\"` and `\\` escapes, either of them with a field prefix `name:`, bracketed ranges `[a TO b]`/`{a TO b}` (also mixed, also with a field prefix), elastic ranges `>=a` `<=a` `<a` `>a`, `*`, `name:*`, sets `IN [a b c]` of plain words (any blanks, also with a field prefix), `NOT x` of a well-formed operand, and parenthesised lists of well-formed operands with
     markers, AND/OR and any layout -/
 inductive WFOpd : Opd → Prop where
   | word (w : Str) (hw : PlainWord w) : WFOpd (wordOpd w)
@@ -134,6 +135,10 @@ inductive WFOpd : Opd → Prop where
       WFOpd (fieldSetOpd f k0 k1 w more)
   | phraseEsc (body : Str) (x : Sfx) (hx : WFSfx x) : WFOpd (phraseEscOpd body x)
   | fieldPhraseEsc (f body : Str) (x : Sfx) (hf : PlainWord f) (hx : WFSfx x) : WFOpd (fieldPhraseEscOpd f body x)
+  | all : WFOpd allOpd
+  | existsField (f : Str) (hf : PlainWord f) : WFOpd (existsOpd f)
+  | elastic (k : Nat) (w : Str) (hw : PlainBound w) : WFOpd (elasticOpd k w)
+  | fieldElastic (f : Str) (k : Nat) (w : Str) (hf : PlainWord f) (hw : PlainBound w) : WFOpd (fieldElasticOpd f k w)
   | not (k : Nat) (o : Opd) (ho : WFOpd o) : WFOpd (notOpd k o)
   | group (lead : Nat) (occ : Option Occur) (o : Opd) (more : List PItem) (k : Nat)
       (ho : WFOpd o) (hm : ∀ it ∈ more, WFOpd it.opd) : WFOpd (groupOpd lead occ o more k)
@@ -152,6 +157,10 @@ theorem wf_good (g : Bool) (o : Opd) (h : WFOpd o) : GoodOpd g o := by
   | fieldSet f k0 k1 w more hf h => exact goodOpd_fieldSet g f k0 k1 w more hf h
   | phraseEsc body x hx => exact goodOpd_phraseEsc g body x hx
   | fieldPhraseEsc f body x hf hx => exact goodOpd_fieldPhraseEsc g f body x hf hx
+  | all => exact goodOpd_all g
+  | existsField f hf => exact goodOpd_exists g f hf
+  | elastic k w hw => exact goodOpd_elastic g k w hw
+  | fieldElastic f k w hf hw => exact goodOpd_fieldElastic g f k w hf hw
   | not k o _ ih => exact goodOpd_not g k o ih
   | group lead occ o more k _ _ iho ihm => exact goodOpd_group g lead occ o more k iho ihm
 
